@@ -200,6 +200,10 @@ def conclude(prop, tier, seed, run, wall):
     known, fresh = findings.classify(prop, bad, kf)
     rdir = os.path.join(BUILD, "replay")
     os.makedirs(rdir, exist_ok=True)
+    import glob
+
+    for old in glob.glob(os.path.join(rdir, "%s-%s-*.json" % (prop, tier))):
+        os.remove(old)
     for fid, evs in sorted(known.items()):
         print("KNOWN-FINDING: property=%s %s [%s; %d event(s) this run]" % (prop, kf[fid]["what"], fid, len(evs)))
     vio_paths = []
